@@ -36,7 +36,7 @@ PLAIN_ALLOWED = {0x0201, 0x0202, 0x0203, 0x0204, 0x020B, 0x020C}
 CEMI = bytes.fromhex("2900bcd011010901010081")
 
 
-def make(steps: int, uniform_max: bool, family: str = ""):
+def make(steps: int, uniform_max: bool, family: str = "", latency_ms: int = LATENCY_MS):
     """family 'ahead': the session starts (for free) with an authentic answer to our synchronisation request that puts the group
     timer one hour ahead of the local clock, and one user send - the deviation budget then goes into what follows (restart, ...)."""
     def scenario(ch: Chooser) -> list[tuple[str, str]]:
@@ -57,7 +57,7 @@ def make(steps: int, uniform_max: bool, family: str = ""):
                 loop._vtime = 5000.0  # noqa: SLF001
                 xknx = XKNX()
                 up: list[bytes] = []
-                r = SecureRouting(xknx, None, up.append, local_ip="192.168.1.2", backbone_key=KEY, latency_ms=LATENCY_MS)
+                r = SecureRouting(xknx, None, up.append, local_ip="192.168.1.2", backbone_key=KEY, latency_ms=latency_ms)
                 delivered: list[Any] = []
                 r.transport.register_callback(lambda frame, src, tr: delivered.append(frame.body))
                 t0 = w.spawn(r.connect(), name="harness-connect")
@@ -128,7 +128,7 @@ def make(steps: int, uniform_max: bool, family: str = ""):
                         raw = ipsec.wrap(KEY if kind != "wrong-key" else bytes(16), 0, timer.to_bytes(6, "big"), PEER_SERIAL, b"\x33\x44", plain)
                         if kind == "forged":
                             raw = raw[:-1] + bytes((raw[-1] ^ 1,))
-                        timely = timer > local_timer() - LATENCY_MS
+                        timely = timer > local_timer() - latency_ms
                         feed(raw, ev, kind == "genuine", kind == "genuine" and timely and st.timer_authenticated)
                     elif ev == "disconnect+connect":
                         # the same SecureRouting object is stopped and started again (XKNX.stop() / start()): the group timer
@@ -225,13 +225,14 @@ def run(ctx: Ctx) -> None:
         f"real SecureRouting/SecureGroup/SecureSequenceTimer from connect() on (timer synchronisation running), in-memory multicast, random.uniform owned by the harness (min and max), "
         f"{steps} environment steps; every schedule with <= {bound} events other than 'next timer' from: +100 ms, user send, TimerNotify genuine/forged at local timer {OFFSETS} ms, "
         "the reply to our synchronisation tag (once, twice, wrong tag, forged), wrapped RoutingIndication genuine / with a flipped MAC bit / wrapped with another key (decrypts to noise) at the same offsets, one plain frame of every service, authentic wrappers around unparsable content type, disconnect()+connect() on the same object. "
-        "A second family starts (for free) with an authentic synchronisation answer one hour ahead and a user send. Frames are built by the independent reference. Oracle: nothing raises; only authentic frames move the timer and never backwards; wrapped frames are forwarded iff authentic, timely "
+        "A third family runs with latency_ms=500 (frames 500 ms behind are then too old). A second family starts (for free) with an authentic synchronisation answer one hour ahead and a user send. Frames are built by the independent reference. Oracle: nothing raises; only authentic frames move the timer and never backwards; wrapped frames are forwarded iff authentic, timely "
         "(> local - 1000 ms) and after synchronisation; plain frames only for discovery/description; everything sent is an authentic wrapper or TimerNotify with non-decreasing timer"
     )
     ctx.bounds = {"deviation_bound": bound, "steps": steps, "events": len(EVENTS)}
     for umax in (False, True):
         explore(ctx, __name__, "secure-routing", (steps, umax), bound=bound)
     explore(ctx, __name__, "secure-routing", (4, False, "ahead"), bound=min(bound, 2))
+    explore(ctx, __name__, "secure-routing", (4, False, "", 500), bound=min(bound, 2))   # a configured latency tolerance of 500 ms
     finalize_states(ctx)
 
 
